@@ -1,8 +1,804 @@
-(** Proofs about the Subscribe responder model. *)
+(** Proofs about the Subscribe responder model (SubModel.v): exactness of the
+    ONCE / POLL snapshots (C05) and the ACL clauses (C07). *)
 From Gnmi Require Import Base.Prelude CTree.CTreeModel CTree.CTreeProofs Subscribe.SubModel.
+
+(** * Caches *)
+
+Definition wf_cache (c : cache) : Prop :=
+  NoDup (keys c) /\ Forall (fun kt => wf_tree (snd kt)) c.
+
+(** leaf [n] is stored under index path [p] of target [t] *)
+Definition stored (c : cache) (t : string) (p : path) (n : noti) : Prop :=
+  exists tr, In (t, tr) c /\ lookup tr p = Some n.
+
+(** the request target selects target [t] *)
+Definition tsel (rt t : string) : Prop := rt = "*" \/ rt = t.
+
+(** the specification of a snapshot: the stored leaves that some subscription
+    path, completed with the prefix, matches ([qmatch]: wildcards at any
+    position), in a selected target *)
+Definition matches (c : cache) (rt : string) (pf : option gpath) (subs : list (option gpath))
+  (n : noti) : Prop :=
+  exists t p sp full,
+    tsel rt t /\ stored c t p n /\ In sp subs /\ complete_path pf sp = Some full
+    /\ qmatch full p = true.
+
+Lemma query_spec (tr : tree noti) q p v :
+  wf_tree tr -> (In (p, v) (query tr q) <-> lookup tr p = Some v /\ qmatch q p = true).
+Proof.
+  destruct tr as [n|]; cbn; intros Hwf.
+  - rewrite (query_node_spec n [] q p v Hwf). cbn. split.
+    + intros (s & -> & H1 & H2). auto.
+    + intros [H1 H2]. eauto.
+  - split; [tauto|intros [H _]; discriminate].
+Qed.
+
+Lemma wf_cache_tree c t tr : wf_cache c -> In (t, tr) c -> wf_tree tr.
+Proof.
+  intros [_ Hall] Hin. rewrite Forall_forall in Hall. exact (Hall _ Hin).
+Qed.
+
+Lemma sel_trees_spec c rt tr :
+  NoDup (keys c) ->
+  (In tr (sel_trees c rt) <-> exists t, tsel rt t /\ In (t, tr) c).
+Proof.
+  intros Hnd. unfold sel_trees, tsel. destruct (String.eqb_spec rt "*") as [->|Hne].
+  - rewrite in_map_iff. split.
+    + intros ([t tr'] & <- & Hin). exists t. auto.
+    + intros (t & _ & Hin). exists (t, tr). auto.
+  - destruct (assoc rt c) as [tr'|] eqn:Ha.
+    + split.
+      * intros [<-|[]]. exists rt. split; [auto|]. now apply assoc_In.
+      * intros (t & [E|E] & Hin); [contradiction|]. subst t.
+        pose proof (In_assoc _ _ _ Hnd Hin) as Ha'. rewrite Ha in Ha'. inversion Ha'. now left.
+    + split; [intros []|]. intros (t & [E|E] & Hin); [contradiction|]. subst t.
+      pose proof (In_assoc _ _ _ Hnd Hin) as Ha'. congruence.
+Qed.
+
+(** * The walk *)
+
+Lemma walk_subs_ok c rt pf subs :
+  snd (walk_subs c rt pf subs) = true <-> forall sp, In sp subs -> complete_path pf sp <> None.
+Proof.
+  induction subs as [|sp r IH]; cbn.
+  - split; [intros _ sp []|reflexivity].
+  - destruct (complete_path pf sp) as [full|] eqn:E; cbn.
+    + rewrite IH. split.
+      * intros H sp' [<-|Hin]; [congruence|auto].
+      * intros H sp' Hin. apply H. now right.
+    + split; [discriminate|]. intros H. exfalso. apply (H sp); auto.
+Qed.
+
+Lemma walk_subs_spec c rt pf subs :
+  wf_cache c -> snd (walk_subs c rt pf subs) = true ->
+  ~ In RSync (fst (walk_subs c rt pf subs)) /\
+  forall n, In (RUpd n) (fst (walk_subs c rt pf subs)) <-> matches c rt pf subs n.
+Proof.
+  intros Hwf. induction subs as [|sp r IH]; cbn.
+  - intros _. split; [tauto|]. intros n. split; [intros []|].
+    intros (t & p & sp & full & _ & _ & [] & _).
+  - destruct (complete_path pf sp) as [full|] eqn:E; cbn; [|discriminate].
+    intros Hok. destruct (IH Hok) as [IHs IHm]. split.
+    + rewrite in_app_iff. intros [H|H]; [|contradiction].
+      apply in_flat_map in H as (tr & _ & H). apply in_map_iff in H as (pv & Hpv & _). discriminate.
+    + intros n. rewrite in_app_iff, IHm. split.
+      * intros [H|H].
+        -- apply in_flat_map in H as (tr & Htr & H). apply in_map_iff in H as ([p v] & Hpv & Hq).
+           cbn in Hpv. inversion Hpv; subst v.
+           apply sel_trees_spec in Htr as (t & Ht & Hin); [|apply Hwf].
+           apply query_spec in Hq as [Hl Hm]; [|eapply wf_cache_tree; eauto].
+           exists t, p, sp, full. split; [auto|]. split; [exists tr; auto|].
+           split; [now left|auto].
+        -- destruct H as (t & p & sp' & full' & H1 & H2 & H3 & H4 & H5).
+           exists t, p, sp', full'. split; [auto|]. split; [auto|]. split; [now right|auto].
+      * intros (t & p & sp' & full' & Ht & (tr & Hin & Hl) & [<-|Hsp] & Hc & Hm).
+        -- left. rewrite E in Hc. inversion Hc; subst full'.
+           apply in_flat_map. exists tr. split.
+           ++ apply sel_trees_spec; [apply Hwf|]. eauto.
+           ++ apply in_map_iff. exists (p, n). split; [reflexivity|].
+              apply query_spec; [eapply wf_cache_tree; eauto|]. auto.
+        -- right. exists t, p, sp', full'. split; [auto|]. split; [exists tr; auto|]. auto.
+Qed.
+
+(** every stored leaf is offered once per (subscription, target, path): the
+    paths one tree query reports are pairwise distinct *)
+Lemma query_nodup (tr : tree noti) q : wf_tree tr -> NoDup (map fst (query tr q)).
+Proof.
+  destruct tr as [n|]; cbn; intros Hwf; [now apply query_node_nodup|constructor].
+Qed.
+
+(** * Sending *)
 
 Lemma send_filter_noacl allow l : send_filter allow NoACL l = l.
 Proof.
   unfold send_filter. induction l as [|r l IH]; cbn; [reflexivity|].
   destruct r; cbn; now rewrite IH.
 Qed.
+
+Lemma send_filter_app allow a l1 l2 :
+  send_filter allow a (l1 ++ l2) = send_filter allow a l1 ++ send_filter allow a l2.
+Proof. apply filter_app. Qed.
+
+Lemma send_filter_idem allow a l :
+  send_filter allow a (send_filter allow a l) = send_filter allow a l.
+Proof.
+  unfold send_filter. induction l as [|r l IH]; cbn; [reflexivity|].
+  destruct (passes allow a r) eqn:E; cbn; rewrite ?E, IH; reflexivity.
+Qed.
+
+Lemma send_filter_allowed allow a l n :
+  In (RUpd n) (send_filter allow a l) -> chk allow a (g_target (n_prefix n)) = true.
+Proof. unfold send_filter. rewrite filter_In. now intros [_ H]. Qed.
+
+(** * ONCE *)
+
+(** a request Subscribe accepts up to the mode switch *)
+Definition accepted (c : cache) (rq : request) (pf : gpath) : Prop :=
+  r_has_sub rq = true /\ r_prefix rq = Some pf /\ g_target pf <> ""
+  /\ has_target c (g_target pf) = true.
+
+Definition paths_ok (rq : request) (pf : gpath) : Prop :=
+  forall sp, In sp (r_subs rq) -> complete_path (Some pf) sp <> None.
+
+Lemma snapshot_exact c rq pf :
+  wf_cache c -> r_prefix rq = Some pf -> paths_ok rq pf -> r_updates_only rq = false ->
+  exists ups,
+    snapshot c (g_target pf) rq = (ups ++ [RSync], true) /\ ~ In RSync ups /\
+    forall n, In (RUpd n) ups <-> matches c (g_target pf) (Some pf) (r_subs rq) n.
+Proof.
+  intros Hwf Hpf Hok Huo. unfold snapshot. rewrite Huo, Hpf.
+  assert (Hs : snd (walk_subs c (g_target pf) (Some pf) (r_subs rq)) = true)
+    by (apply walk_subs_ok; exact Hok).
+  rewrite Hs. exists (fst (walk_subs c (g_target pf) (Some pf) (r_subs rq))).
+  split; [reflexivity|]. now apply walk_subs_spec.
+Qed.
+
+Lemma snapshot_updates_only c t rq :
+  r_updates_only rq = true -> snapshot c t rq = ([RSync], true).
+Proof. intros H. unfold snapshot. now rewrite H. Qed.
+
+Lemma subscribe_accepted allow a c rq pf :
+  accepted c rq pf ->
+  (g_target pf = "*" \/ chk allow a (g_target pf) = true) ->
+  a <> ACLUser None ->
+  subscribe allow a c (Some rq) =
+    let t := g_target pf in
+    if Z.eqb (r_mode rq) 1 then
+      let s := snapshot c t rq in
+      (PEnded (if snd s then SOK else SUnknown), send_filter allow a (fst s))
+    else if Z.eqb (r_mode rq) 2 then
+      let s := snapshot c t rq in
+      (if snd s then PPoll t rq else PEnded SUnknown, send_filter allow a (fst s))
+    else if Z.eqb (r_mode rq) 0 then
+      let s := snapshot c t rq in
+      (if snd s then PStream (negb (String.eqb t "*")) (sub_queries pf (r_subs rq))
+       else PEnded SUnknown,
+       send_filter allow a (fst s))
+    else (PEnded SInvalidArgument, []).
+Proof.
+  intros (Hs & Hp & Ht & Hh) Hchk Ha.
+  assert (Hc : negb (String.eqb (g_target pf) "*") && negb (chk allow a (g_target pf)) = false).
+  { destruct Hchk as [E|E]; rewrite E; cbn; [reflexivity|apply andb_false_r]. }
+  unfold subscribe.
+  destruct a as [|[u|]]; try congruence; rewrite Hs, Hp; cbn [negb];
+    (destruct (String.eqb_spec (g_target pf) "") as [E|_]; [contradiction|]); rewrite Hh; cbn [negb];
+    rewrite Hc; reflexivity.
+Qed.
+
+Lemma not_acl_none : NoACL <> ACLUser None.
+Proof. discriminate. Qed.
+
+Lemma run_sub allow a rq c :
+  run allow a rq (RS c PBefore) [SSub]
+  = ([(snd (subscribe allow a c rq), COk)], RS c (fst (subscribe allow a c rq))).
+Proof. reflexivity. Qed.
+
+(** ONCE against an unchanging cache: the updates before the sync are exactly
+    the matching leaves with their current stored notifications, then exactly
+    one sync, last, and the RPC ends with status OK. *)
+Lemma once_exact allow c rq pf :
+  wf_cache c -> accepted c rq pf -> r_mode rq = 1%Z -> r_updates_only rq = false ->
+  paths_ok rq pf ->
+  exists ups,
+    run allow NoACL (Some rq) (RS c PBefore) [SSub]
+      = ([(ups ++ [RSync], COk)], RS c (PEnded SOK))
+    /\ ~ In RSync ups
+    /\ (forall n, In (RUpd n) ups <-> matches c (g_target pf) (Some pf) (r_subs rq) n).
+Proof.
+  intros Hwf Hacc Hm Huo Hok.
+  destruct (snapshot_exact c rq pf Hwf (proj1 (proj2 Hacc)) Hok Huo) as (ups & Hs & Hn & Hi).
+  exists ups. split; [|auto]. rewrite run_sub.
+  rewrite (subscribe_accepted allow NoACL c rq pf Hacc (or_intror eq_refl) not_acl_none).
+  rewrite Hm. cbn zeta. rewrite Z.eqb_refl, Hs. cbn [fst snd]. now rewrite send_filter_noacl.
+Qed.
+
+Lemma once_updates_only allow c rq pf :
+  accepted c rq pf -> r_mode rq = 1%Z -> r_updates_only rq = true ->
+  run allow NoACL (Some rq) (RS c PBefore) [SSub] = ([([RSync], COk)], RS c (PEnded SOK)).
+Proof.
+  intros Hacc Hm Huo. rewrite run_sub.
+  rewrite (subscribe_accepted allow NoACL c rq pf Hacc (or_intror eq_refl) not_acl_none).
+  rewrite Hm. cbn zeta. rewrite Z.eqb_refl, (snapshot_updates_only _ _ _ Huo). reflexivity.
+Qed.
+
+(** * Cache operations keep the cache well formed *)
+
+Lemma add_wf (t t' : tree noti) p v : wf_tree t -> add t p v = Some t' -> wf_tree t'.
+Proof.
+  destruct t as [n|]; cbn.
+  - intros Hwf. destruct (add_node n p v) as [n'|] eqn:E; [|discriminate].
+    intros H; inversion H; subst. cbn. exact (proj1 (add_node_spec n p v n' Hwf E)).
+  - intros _ H; inversion H; subst. cbn. apply wf_new_branch.
+Qed.
+
+Lemma delete_cond_wf (t : tree noti) q cnd : wf_tree t -> wf_tree (fst (delete_cond t q cnd)).
+Proof.
+  destruct t as [n|]; cbn; [|trivial]. intros Hwf.
+  destruct (del_node_spec n q cnd Hwf) as (H & _).
+  destruct (del_node n q cnd) as [[n'|] l]; cbn in *; [apply H; reflexivity|trivial].
+Qed.
+
+Lemma gnmi_update1_wf tr n tr' fd e :
+  wf_tree tr -> gnmi_update1 tr n = URes tr' fd e -> wf_tree tr'.
+Proof.
+  intros Hwf. unfold gnmi_update1.
+  destruct (n_upds n) as [|[p0 v0] us]; [discriminate|].
+  destruct (join_prefix_path _ _) as [[|k p]|]; try discriminate.
+  destruct (String.eqb k "meta"); [discriminate|].
+  destruct (get tr (k :: p)) as [[old|cs]|] eqn:G.
+  - destruct (Z.ltb _ _); [intros H; inversion H; subst; assumption|].
+    destruct (_ && _); [intros H; inversion H; subst; assumption|].
+    destruct (add tr (k :: p) n) as [tr1|] eqn:A; [|discriminate].
+    destruct (first_val old); [|discriminate].
+    destruct (_ && _); intros H; inversion H; subst; eapply add_wf; eauto.
+  - intros H; inversion H; subst; assumption.
+  - destruct (add tr (k :: p) n) as [tr1|] eqn:A; intros H; inversion H; subst;
+      [eapply add_wf; eauto|assumption].
+Qed.
+
+Lemma gnmi_remove1_wf tr n tr' fd e :
+  wf_tree tr -> gnmi_remove1 tr n = URes tr' fd e -> wf_tree tr'.
+Proof.
+  intros Hwf. unfold gnmi_remove1.
+  destruct (n_dels n) as [|d ds]; [discriminate|].
+  destruct (join_prefix_path _ _) as [[|k p]|]; try discriminate.
+  destruct (String.eqb k "meta"); [discriminate|].
+  destruct (all_some _); [|discriminate].
+  intros H; inversion H; subst. now apply delete_cond_wf.
+Qed.
+
+Lemma apply_parts_wf f :
+  (forall tr n tr' fd e, wf_tree tr -> f tr n = URes tr' fd e -> wf_tree tr') ->
+  forall ns tr feed err tr' fd e,
+    wf_tree tr -> apply_parts f tr ns feed err = URes tr' fd e -> wf_tree tr'.
+Proof.
+  intros Hf. induction ns as [|n r IH]; cbn; intros tr feed err tr' fd e Hwf.
+  - intros H; inversion H; subst; assumption.
+  - destruct (f tr n) as [tr1 fd1 e1| |] eqn:E; try discriminate.
+    apply IH. eapply Hf; eauto.
+Qed.
+
+Lemma tgt_update_wf tr n tr' fd e :
+  wf_tree tr -> tgt_update tr n = URes tr' fd e -> wf_tree tr'.
+Proof.
+  intros Hwf. unfold tgt_update.
+  destruct (n_atomic n).
+  - destruct (n_dels n); [|intros H; inversion H; subst; assumption].
+    destruct (n_upds n); [intros H; inversion H; subst; assumption|].
+    now apply gnmi_update1_wf.
+  - destruct (Nat.ltb _ _).
+    + destruct (apply_parts gnmi_update1 tr _ [] false) as [tr1 fd1 e1| |] eqn:E; try discriminate.
+      apply (apply_parts_wf _ gnmi_remove1_wf).
+      eapply (apply_parts_wf _ gnmi_update1_wf); eauto.
+    + destruct (n_upds n) as [|u [|u' us]]; destruct (n_dels n) as [|d [|d' ds]];
+        try (intros H; inversion H; subst; assumption);
+        try (now apply gnmi_update1_wf); try (now apply gnmi_remove1_wf).
+Qed.
+
+Lemma cache_op_wf c o :
+  wf_cache c -> wf_cache (fst (fst (cache_op c o))).
+Proof.
+  intros [Hnd Hall]. destruct o as [n|t now]; cbn.
+  - destruct (assoc _ c) as [tr|] eqn:A; cbn; [|split; assumption].
+    destruct (tgt_update tr n) as [tr' fd e| |] eqn:U; cbn; try (split; assumption).
+    split; [now apply NoDup_keys_aset|]. apply Forall_aset; [assumption|]. cbn.
+    eapply tgt_update_wf; [|exact U].
+    apply assoc_In in A. rewrite Forall_forall in Hall. exact (Hall _ A).
+  - split; [now apply NoDup_keys_adel|now apply Forall_adel].
+Qed.
+
+Lemma fold_aset_wf ts : forall c : cache,
+  wf_cache c -> wf_cache (fold_left (fun (c : cache) t => aset t (None : tree noti) c) ts c).
+Proof.
+  induction ts as [|t r IH]; cbn; intros c Hc; [assumption|].
+  apply IH. destruct Hc as [Hnd Hall]. split; [now apply NoDup_keys_aset|].
+  apply Forall_aset; [assumption|exact I].
+Qed.
+
+Lemma empty_cache_wf ts : wf_cache (empty_cache ts).
+Proof. apply fold_aset_wf. split; constructor. Qed.
+
+(** * Scripts *)
+
+(** the cache after the cache operations of a script prefix *)
+Fixpoint cache_after (c : cache) (ops : list step) : cache :=
+  match ops with
+  | [] => c
+  | SCache o :: r => cache_after (fst (fst (cache_op c o))) r
+  | _ :: r => cache_after c r
+  end.
+
+Lemma cache_after_wf c ops : wf_cache c -> wf_cache (cache_after c ops).
+Proof.
+  revert c; induction ops as [|s r IH]; cbn; intros c Hwf; [assumption|].
+  destruct s; auto. apply IH. now apply cache_op_wf.
+Qed.
+
+Lemma run_app allow a rq st l1 l2 :
+  run allow a rq st (l1 ++ l2) =
+  (fst (run allow a rq st l1) ++ fst (run allow a rq (snd (run allow a rq st l1)) l2),
+   snd (run allow a rq (snd (run allow a rq st l1)) l2)).
+Proof.
+  revert st; induction l1 as [|s r IH]; intros st; cbn [app run].
+  - cbn. now destruct (run allow a rq st l2).
+  - destruct (run_step allow a rq st s) as [[st' g] cr]. rewrite IH. reflexivity.
+Qed.
+
+Lemma run_length allow a rq st ops : List.length (fst (run allow a rq st ops)) = List.length ops.
+Proof.
+  revert st; induction ops as [|s r IH]; intros st; cbn; [reflexivity|].
+  destruct (run_step allow a rq st s) as [[st' g] cr]. cbn. now rewrite IH.
+Qed.
+
+(** the cache a script reaches does not depend on the subscriber *)
+Lemma run_cache allow a rq st ops :
+  rs_cache (snd (run allow a rq st ops)) = cache_after (rs_cache st) ops.
+Proof.
+  revert st; induction ops as [|s r IH]; intros st; cbn; [reflexivity|].
+  destruct s as [o| |]; cbn.
+  - destruct (cache_op (rs_cache st) o) as [[c' fd] cr] eqn:E.
+    destruct (rs_phase st) as [| | |]; cbn; rewrite IH; cbn; reflexivity.
+  - destruct (rs_phase st); cbn; rewrite IH; reflexivity.
+  - destruct (rs_phase st); cbn; rewrite IH; reflexivity.
+Qed.
+
+Lemma run_cons allow a rq st s r :
+  run allow a rq st (s :: r) =
+  ((snd (fst (run_step allow a rq st s)), snd (run_step allow a rq st s))
+     :: fst (run allow a rq (fst (fst (run_step allow a rq st s))) r),
+   snd (run allow a rq (fst (fst (run_step allow a rq st s))) r)).
+Proof. cbn [run]. destruct (run_step allow a rq st s) as [[st' g] cr]. reflexivity. Qed.
+
+Lemma run_step_poll allow a rq c t q :
+  run_step allow a rq (RS c (PPoll t q)) SPoll =
+  (RS c (if snd (snapshot c t q) then PPoll t q else PEnded SUnknown),
+   send_filter allow a (fst (snapshot c t q)), COk).
+Proof. reflexivity. Qed.
+
+Lemma run_step_sub allow a rq c :
+  run_step allow a rq (RS c PBefore) SSub =
+  (RS c (fst (subscribe allow a c rq)), snd (subscribe allow a c rq), COk).
+Proof. reflexivity. Qed.
+
+Definition silent (gs : list (list resp * cres)) : Prop := Forall (fun g => fst g = []) gs.
+
+Definition no_sub (ops : list step) : Prop := ~ In SSub ops.
+
+(** before the Subscribe call nothing is sent *)
+Lemma run_before allow a rq c ops :
+  no_sub ops ->
+  silent (fst (run allow a rq (RS c PBefore) ops))
+  /\ snd (run allow a rq (RS c PBefore) ops) = RS (cache_after c ops) PBefore.
+Proof.
+  revert c; induction ops as [|s r IH]; intros c Hn; cbn.
+  - split; [constructor|reflexivity].
+  - assert (Hr : no_sub r) by (intros H; apply Hn; now right).
+    destruct s as [o| |]; cbn.
+    + destruct (cache_op c o) as [[c' fd] cr]. cbn. destruct (IH c' Hr) as [H1 H2].
+      split; [constructor; [reflexivity|assumption]|assumption].
+    + exfalso. apply Hn. now left.
+    + destruct (IH c Hr) as [H1 H2]. split; [constructor; [reflexivity|assumption]|assumption].
+Qed.
+
+(** after the RPC has ended nothing is sent and the status stays *)
+Lemma run_ended allow a rq c st ops :
+  silent (fst (run allow a rq (RS c (PEnded st)) ops))
+  /\ snd (run allow a rq (RS c (PEnded st)) ops) = RS (cache_after c ops) (PEnded st).
+Proof.
+  revert c; induction ops as [|s r IH]; intros c; cbn.
+  - split; [constructor|reflexivity].
+  - destruct s as [o| |]; cbn.
+    + destruct (cache_op c o) as [[c' fd] cr]. cbn. destruct (IH c') as [H1 H2].
+      split; [constructor; [reflexivity|assumption]|assumption].
+    + destruct (IH c) as [H1 H2]. split; [constructor; [reflexivity|assumption]|assumption].
+    + destruct (IH c) as [H1 H2]. split; [constructor; [reflexivity|assumption]|assumption].
+Qed.
+
+(** * POLL *)
+
+Definition snapshot_ok (rq : request) (pf : gpath) : Prop :=
+  r_updates_only rq = true \/ paths_ok rq pf.
+
+Lemma snapshot_ok_snd c rq pf :
+  r_prefix rq = Some pf -> snapshot_ok rq pf -> snd (snapshot c (g_target pf) rq) = true.
+Proof.
+  intros Hp [H|H]; unfold snapshot.
+  - now rewrite H.
+  - destruct (r_updates_only rq); [reflexivity|]. rewrite Hp.
+    assert (Hs : snd (walk_subs c (g_target pf) (Some pf) (r_subs rq)) = true)
+      by (apply walk_subs_ok; exact H).
+    now rewrite Hs.
+Qed.
+
+(** the group a script step produces, by position *)
+Definition group_at allow a rq st ops (i : nat) : option (list resp * cres) :=
+  nth_error (fst (run allow a rq st ops)) i.
+
+(** in the polling phase: a trigger re-walks the cache as it is now, a cache
+    edit sends nothing, the phase never changes *)
+Lemma run_poll_phase allow rq pf c ops :
+  r_prefix rq = Some pf -> snapshot_ok rq pf ->
+  snd (run allow NoACL (Some rq) (RS c (PPoll (g_target pf) rq)) ops)
+  = RS (cache_after c ops) (PPoll (g_target pf) rq).
+Proof.
+  intros Hp Hok. revert c; induction ops as [|s r IH]; intros c; cbn; [reflexivity|].
+  destruct s as [o| |]; cbn.
+  - destruct (cache_op c o) as [[c' fd] cr]. cbn. apply IH.
+  - apply IH.
+  - rewrite (snapshot_ok_snd c rq pf Hp Hok). cbn. apply IH.
+Qed.
+
+Lemma run_poll_step allow rq pf c ops1 ops2 :
+  r_prefix rq = Some pf -> snapshot_ok rq pf ->
+  group_at allow NoACL (Some rq) (RS c (PPoll (g_target pf) rq)) (ops1 ++ SPoll :: ops2) (List.length ops1)
+  = Some (fst (snapshot (cache_after c ops1) (g_target pf) rq), COk).
+Proof.
+  intros Hp Hok. unfold group_at. rewrite run_app.
+  cbn [fst]. rewrite nth_error_app2 by (rewrite run_length; lia).
+  rewrite run_length, Nat.sub_diag, run_poll_phase by assumption.
+  rewrite run_cons, run_step_poll. cbn [fst snd nth_error]. now rewrite send_filter_noacl.
+Qed.
+
+Lemma run_poll_silent allow rq pf c ops1 o ops2 :
+  r_prefix rq = Some pf -> snapshot_ok rq pf ->
+  exists cr,
+  group_at allow NoACL (Some rq) (RS c (PPoll (g_target pf) rq)) (ops1 ++ SCache o :: ops2) (List.length ops1)
+  = Some ([], cr).
+Proof.
+  intros Hp Hok. unfold group_at. rewrite run_app.
+  cbn [fst]. rewrite nth_error_app2 by (rewrite run_length; lia).
+  rewrite run_length, Nat.sub_diag, run_poll_phase by assumption.
+  rewrite run_cons. cbn [run_step rs_phase rs_cache].
+  destruct (cache_op (cache_after c ops1) o) as [[c' fd] cr]. cbn [fst snd nth_error]. eauto.
+Qed.
+
+(** POLL: the initial request and every later trigger each return exactly the
+    leaves matching at that moment (after the cache edits made so far), then
+    one sync, last; edits in between send nothing; closing the request stream
+    ends the RPC with status OK. *)
+Lemma poll_exact allow c0 rq pf pre ops1 ops2 :
+  wf_cache c0 -> no_sub pre ->
+  accepted (cache_after c0 pre) rq pf -> r_mode rq = 2%Z -> r_updates_only rq = false ->
+  paths_ok rq pf ->
+  let script := pre ++ SSub :: ops1 ++ SPoll :: ops2 in
+  let c1 := cache_after c0 (pre ++ SSub :: ops1) in
+  exists ups,
+    group_at allow NoACL (Some rq) (RS c0 PBefore) script (List.length pre + 1 + List.length ops1)
+      = Some (ups ++ [RSync], COk)
+    /\ ~ In RSync ups
+    /\ (forall n, In (RUpd n) ups <-> matches c1 (g_target pf) (Some pf) (r_subs rq) n)
+    /\ final_status (rs_phase (snd (run allow NoACL (Some rq) (RS c0 PBefore) script))) = SOK.
+Proof.
+  intros Hwf Hpre Hacc Hm Huo Hok script c1.
+  pose proof (proj1 (proj2 Hacc)) as Hp.
+  assert (Hsok : snapshot_ok rq pf) by (now right).
+  assert (Hwf1 : wf_cache c1) by (now apply cache_after_wf).
+  destruct (snapshot_exact c1 rq pf Hwf1 Hp Hok Huo) as (ups & Hs & Hn & Hi).
+  exists ups.
+  (* the state after pre ++ [SSub] *)
+  destruct (run_before allow NoACL (Some rq) c0 pre Hpre) as [_ Hst0].
+  assert (Hst1 : snd (run allow NoACL (Some rq) (RS c0 PBefore) (pre ++ [SSub]))
+                 = RS (cache_after c0 pre) (PPoll (g_target pf) rq)).
+  { rewrite run_app. cbn [snd]. rewrite Hst0, run_sub. cbn [snd].
+    rewrite (subscribe_accepted allow NoACL _ rq pf Hacc (or_intror eq_refl) not_acl_none).
+    rewrite Hm. cbn zeta. cbn [Z.eqb Pos.eqb]. rewrite (snapshot_ok_snd _ rq pf Hp Hsok). reflexivity. }
+  assert (Hc1 : c1 = cache_after (cache_after c0 pre) ops1).
+  { unfold c1. clear. revert c0. induction pre as [|s r IH]; intros c0; cbn; [reflexivity|].
+    destruct s; auto. }
+  assert (Hscript : script = (pre ++ [SSub]) ++ (ops1 ++ SPoll :: ops2))
+    by (unfold script; now rewrite <- app_assoc).
+  split; [|split; [assumption|split; [assumption|]]].
+  - unfold group_at. rewrite Hscript, run_app. cbn [fst].
+    rewrite nth_error_app2 by (rewrite run_length, app_length; cbn; lia).
+    rewrite run_length, app_length, Hst1. cbn [List.length].
+    replace (List.length pre + 1 + List.length ops1 - (List.length pre + 1)) with (List.length ops1) by lia.
+    pose proof (run_poll_step allow rq pf (cache_after c0 pre) ops1 ops2 Hp Hsok) as H.
+    unfold group_at in H. rewrite H, <- Hc1, Hs. reflexivity.
+  - rewrite Hscript, run_app. cbn [snd]. rewrite Hst1, run_poll_phase by assumption. reflexivity.
+Qed.
+
+(** the first response group of a POLL (the initial request) *)
+Lemma poll_initial_exact allow c0 rq pf pre ops :
+  wf_cache c0 -> no_sub pre ->
+  accepted (cache_after c0 pre) rq pf -> r_mode rq = 2%Z -> r_updates_only rq = false ->
+  paths_ok rq pf ->
+  exists ups,
+    group_at allow NoACL (Some rq) (RS c0 PBefore) (pre ++ SSub :: ops) (List.length pre)
+      = Some (ups ++ [RSync], COk)
+    /\ ~ In RSync ups
+    /\ (forall n, In (RUpd n) ups <->
+                  matches (cache_after c0 pre) (g_target pf) (Some pf) (r_subs rq) n).
+Proof.
+  intros Hwf Hpre Hacc Hm Huo Hok.
+  pose proof (proj1 (proj2 Hacc)) as Hp.
+  assert (Hwf1 : wf_cache (cache_after c0 pre)) by (now apply cache_after_wf).
+  destruct (snapshot_exact _ rq pf Hwf1 Hp Hok Huo) as (ups & Hs & Hn & Hi).
+  exists ups. split; [|auto].
+  destruct (run_before allow NoACL (Some rq) c0 pre Hpre) as [_ Hst0].
+  unfold group_at. rewrite run_app. cbn [fst].
+  rewrite nth_error_app2 by (rewrite run_length; lia).
+  rewrite run_length, Nat.sub_diag, Hst0. rewrite run_cons, run_step_sub. cbn [fst snd nth_error].
+  rewrite (subscribe_accepted allow NoACL _ rq pf Hacc (or_intror eq_refl) not_acl_none).
+  rewrite Hm. cbn zeta. cbn [Z.eqb Pos.eqb]. rewrite Hs. cbn [fst snd].
+  now rewrite send_filter_noacl.
+Qed.
+
+(** * ACL (C07) *)
+
+Lemma silent_app l1 l2 : silent l1 -> silent l2 -> silent (l1 ++ l2).
+Proof. unfold silent. intros; apply Forall_app; auto. Qed.
+
+Lemma subscribe_no_rpcacl allow c rq :
+  subscribe allow (ACLUser None) c rq = (PEnded SUnauthenticated, []).
+Proof. reflexivity. Qed.
+
+(** ACL installed but no per-call ACL can be made: the call is rejected as
+    Unauthenticated and nothing is ever sent, whatever the script does *)
+Lemma unauthenticated_if_no_rpcacl allow rq c pre post :
+  no_sub pre ->
+  let r := run allow (ACLUser None) rq (RS c PBefore) (pre ++ SSub :: post) in
+  silent (fst r) /\ final_status (rs_phase (snd r)) = SUnauthenticated.
+Proof.
+  intros Hpre r. subst r. rewrite run_app.
+  destruct (run_before allow (ACLUser None) rq c pre Hpre) as [Hs Hst]. rewrite Hst.
+  rewrite run_cons, run_step_sub, subscribe_no_rpcacl. cbn [fst snd].
+  destruct (run_ended allow (ACLUser None) rq (cache_after c pre) SUnauthenticated post) as [Hs2 Hst2].
+  rewrite Hst2. split; [|reflexivity].
+  apply silent_app; [assumption|]. constructor; [reflexivity|assumption].
+Qed.
+
+Lemma subscribe_denied allow u c rq pf :
+  accepted c rq pf -> g_target pf <> "*" -> allow u (g_target pf) = false ->
+  subscribe allow (ACLUser (Some u)) c (Some rq) = (PEnded SPermissionDenied, []).
+Proof.
+  intros (Hs & Hp & Ht & Hh) Hstar Hd. unfold subscribe. rewrite Hs, Hp. cbn [negb].
+  destruct (String.eqb_spec (g_target pf) "") as [E|_]; [contradiction|]. rewrite Hh. cbn [negb].
+  destruct (String.eqb_spec (g_target pf) "*") as [E|_]; [contradiction|].
+  cbn [chk negb andb]. rewrite Hd. reflexivity.
+Qed.
+
+(** a single target the caller is not authorised for: PermissionDenied, and
+    nothing is ever sent *)
+Lemma single_target_denied_no_data allow u rq pf c pre post :
+  no_sub pre -> accepted (cache_after c pre) rq pf ->
+  g_target pf <> "*" -> allow u (g_target pf) = false ->
+  let r := run allow (ACLUser (Some u)) (Some rq) (RS c PBefore) (pre ++ SSub :: post) in
+  silent (fst r) /\ final_status (rs_phase (snd r)) = SPermissionDenied.
+Proof.
+  intros Hpre Hacc Hstar Hd r. subst r. rewrite run_app.
+  destruct (run_before allow (ACLUser (Some u)) (Some rq) c pre Hpre) as [Hs Hst]. rewrite Hst.
+  rewrite run_cons, run_step_sub, (subscribe_denied allow u _ rq pf Hacc Hstar Hd). cbn [fst snd].
+  destruct (run_ended allow (ACLUser (Some u)) (Some rq) (cache_after c pre) SPermissionDenied post)
+    as [Hs2 Hst2].
+  rewrite Hst2. split; [|reflexivity].
+  apply silent_app; [assumption|]. constructor; [reflexivity|assumption].
+Qed.
+
+Lemma stream_feed_allowed allow a single qs feed n :
+  In (RUpd n) (fst (stream_feed allow a single qs feed)) ->
+  chk allow a (g_target (n_prefix n)) = true.
+Proof.
+  induction feed as [|m r IH]; cbn [stream_feed]; [cbn; tauto|].
+  destruct (offers qs m) as [|k]; [assumption|].
+  destruct (single && is_target_delete m); cbn [fst].
+  - apply send_filter_allowed.
+  - rewrite in_app_iff. intros [H|H]; [eapply send_filter_allowed; eauto|auto].
+Qed.
+
+Lemma subscribe_allowed allow a c rq n :
+  In (RUpd n) (snd (subscribe allow a c rq)) -> chk allow a (g_target (n_prefix n)) = true.
+Proof.
+  unfold subscribe.
+  destruct a as [|[u|]]; [| |cbn; tauto];
+    (destruct rq as [rq|]; [|cbn; tauto]);
+    repeat match goal with
+           | |- In _ (snd (if ?b then _ else _)) -> _ => destruct b; cbn [snd]
+           | |- In _ (snd (match ?x with Some _ => _ | None => _ end)) -> _ => destruct x; cbn [snd]
+           | |- In _ [] -> _ => intros []
+           | |- In _ (send_filter _ _ _) -> _ => apply send_filter_allowed
+           end.
+Qed.
+
+Lemma run_step_allowed allow a rq st s n :
+  In (RUpd n) (snd (fst (run_step allow a rq st s))) ->
+  chk allow a (g_target (n_prefix n)) = true.
+Proof.
+  destruct st as [c ph]. destruct s as [o| |]; cbn [run_step rs_phase rs_cache].
+  - destruct (cache_op c o) as [[c' fd] cr].
+    destruct ph; cbn [fst snd]; try (cbn; tauto). apply stream_feed_allowed.
+  - destruct ph; cbn [fst snd]; try (cbn; tauto). apply subscribe_allowed.
+  - destruct ph; cbn [fst snd]; try (cbn; tauto). apply send_filter_allowed.
+Qed.
+
+(** every update or delete response ever sent -- initial snapshot, poll
+    re-walks, streamed updates, deletes, target removal; every mode, every
+    script, from every state -- has a prefix target the per-RPC ACL allows *)
+Lemma never_sends_denied allow a rq st ops g n :
+  In g (fst (run allow a rq st ops)) -> In (RUpd n) (fst g) ->
+  chk allow a (g_target (n_prefix n)) = true.
+Proof.
+  revert st; induction ops as [|s r IH]; intros st; [intros []|].
+  rewrite run_cons. cbn [fst]. intros [<-|Hin] Hn.
+  - cbn [fst] in Hn. eapply run_step_allowed; eauto.
+  - eapply IH; eauto.
+Qed.
+
+(** the request does not name a single target the user is denied *)
+Definition admits (allow : string -> string -> bool) (u : string) (rq : option request) : Prop :=
+  forall r pf, rq = Some r -> r_prefix r = Some pf ->
+               g_target pf = "*" \/ allow u (g_target pf) = true.
+
+Lemma stream_feed_acl allow a single qs feed :
+  stream_feed allow a single qs feed =
+  (send_filter allow a (fst (stream_feed allow NoACL single qs feed)),
+   snd (stream_feed allow NoACL single qs feed)).
+Proof.
+  induction feed as [|m r IH]; cbn [stream_feed]; [reflexivity|].
+  destruct (offers qs m) as [|k]; [assumption|].
+  rewrite (send_filter_noacl allow (repeat (RUpd m) (S k))).
+  destruct (single && is_target_delete m); cbn [fst snd]; [reflexivity|].
+  rewrite IH. cbn [fst snd]. now rewrite send_filter_app.
+Qed.
+
+Lemma subscribe_acl allow u c rq :
+  admits allow u rq ->
+  subscribe allow (ACLUser (Some u)) c rq =
+  (fst (subscribe allow NoACL c rq),
+   send_filter allow (ACLUser (Some u)) (snd (subscribe allow NoACL c rq))).
+Proof.
+  intros Hadm. unfold subscribe. destruct rq as [rq|]; [|reflexivity].
+  destruct (r_has_sub rq); cbn [negb]; [|reflexivity].
+  destruct (r_prefix rq) as [pf|] eqn:Hp; [|reflexivity].
+  destruct (String.eqb (g_target pf) ""); [reflexivity|].
+  destruct (has_target c (g_target pf)); cbn [negb]; [|reflexivity].
+  assert (Hc : negb (String.eqb (g_target pf) "*")
+               && negb (chk allow (ACLUser (Some u)) (g_target pf)) = false).
+  { destruct (Hadm rq pf eq_refl Hp) as [E|E]; cbn [chk]; rewrite E; cbn;
+      [reflexivity|apply andb_false_r]. }
+  rewrite Hc. cbn [chk negb]. rewrite andb_false_r.
+  repeat match goal with |- context [if ?b then _ else _] => destruct b end;
+    cbn [fst snd]; rewrite ?send_filter_noacl; reflexivity.
+Qed.
+
+Lemma run_step_acl allow u rq st s :
+  admits allow u rq ->
+  run_step allow (ACLUser (Some u)) rq st s =
+  (fst (fst (run_step allow NoACL rq st s)),
+   send_filter allow (ACLUser (Some u)) (snd (fst (run_step allow NoACL rq st s))),
+   snd (run_step allow NoACL rq st s)).
+Proof.
+  intros Hadm. destruct st as [c ph]. destruct s as [o| |]; cbn [run_step rs_phase rs_cache].
+  - destruct (cache_op c o) as [[c' fd] cr].
+    destruct ph; cbn [fst snd]; try reflexivity.
+    rewrite stream_feed_acl. cbn [fst snd]. reflexivity.
+  - destruct ph; cbn [fst snd]; try reflexivity.
+    rewrite (subscribe_acl allow u c rq Hadm). reflexivity.
+  - destruct ph; cbn [fst snd]; try reflexivity.
+    now rewrite send_filter_noacl.
+Qed.
+
+(** completeness: with the ACL the user receives exactly the responses of the
+    same script without ACL whose prefix target is allowed, in the same groups
+    and order, the cache operations have the same outcomes, and the RPC ends
+    in the same state (hence the same status) *)
+Lemma allowed_complete allow u rq st ops :
+  admits allow u rq ->
+  let a := ACLUser (Some u) in
+  map fst (fst (run allow a rq st ops))
+    = map (fun g => send_filter allow a (fst g)) (fst (run allow NoACL rq st ops))
+  /\ map snd (fst (run allow a rq st ops)) = map snd (fst (run allow NoACL rq st ops))
+  /\ snd (run allow a rq st ops) = snd (run allow NoACL rq st ops).
+Proof.
+  intros Hadm a. subst a. revert st; induction ops as [|s r IH]; intros st.
+  - cbn. auto.
+  - rewrite !run_cons, (run_step_acl allow u rq st s Hadm). cbn [fst snd map].
+    destruct (IH (fst (fst (run_step allow NoACL rq st s)))) as (H1 & H2 & H3).
+    rewrite H1, H2, H3. auto.
+Qed.
+
+Lemma never_sends_denied_user allow u rq st ops g n :
+  In g (fst (run allow (ACLUser (Some u)) rq st ops)) -> In (RUpd n) (fst g) ->
+  allow u (g_target (n_prefix n)) = true.
+Proof. exact (never_sends_denied allow (ACLUser (Some u)) rq st ops g n). Qed.
+
+Lemma reachable_cache_wf ts ops : wf_cache (cache_after (empty_cache ts) ops).
+Proof. exact (cache_after_wf _ ops (empty_cache_wf ts)). Qed.
+
+(** * Non-vacuity: the hypotheses of the theorems above are met by concrete,
+    non-trivial scripts *)
+
+Module Examples.
+Open Scope Z_scope.
+
+Definition n1 := NT 1 (GP "t1" "oc" []) [(GP "" "" [("a", []); ("b", [])], 5)] [] false.
+Definition n2 := NT 2 (GP "t2" "" [("a", [])]) [(GP "" "" [("c", [("k", "1")])], 6)] [] false.
+Definition n3 := NT 3 (GP "t1" "" []) [(GP "" "" [("b", []); ("b", [])], 7)] [] false.
+Definition n4 := NT 4 (GP "t2" "" []) [] [GP "" "" [("a", [])]] false.
+Definition pre := [SCache (CUpdate n1); SCache (CUpdate n2)].
+Definition c0 := empty_cache ["t1"; "t2"].
+Definition c2 := cache_after c0 pre.
+Definition pfx := GP "*" "" [].
+Definition subs := [Some (GP "" "" [("*", []); ("*", []); ("*", [])]); Some (GP "" "oc" [("a", [])])].
+Definition rq_once := RQ true (Some pfx) subs 1 false.
+Definition rq_poll := RQ true (Some pfx) subs 2 false.
+Definition rq_stream := RQ true (Some pfx) subs 0 false.
+Definition allow1 (u t : string) : bool := String.eqb u "u1" && String.eqb t "t1".
+
+Lemma c0_wf : wf_cache c0.
+Proof. apply empty_cache_wf. Qed.
+
+Lemma c2_wf : wf_cache c2.
+Proof. apply cache_after_wf, c0_wf. Qed.
+
+Lemma paths_ok_ex m : paths_ok (RQ true (Some pfx) subs m false) pfx.
+Proof. intros sp [<-|[<-|[]]]; vm_compute; discriminate. Qed.
+
+Lemma accepted_ex m : accepted c2 (RQ true (Some pfx) subs m false) pfx.
+Proof. repeat split. vm_compute. discriminate. Qed.
+
+Lemma pre_no_sub : no_sub pre.
+Proof. intros [H|[H|[]]]; discriminate. Qed.
+
+(** ONCE over two targets with "*": both leaves, n1 twice (it matches both
+    subscription paths), then the sync *)
+Example once_exact_ex :
+  wf_cache c2 /\ accepted c2 rq_once pfx /\ paths_ok rq_once pfx /\
+  run allow1 NoACL (Some rq_once) (RS c2 PBefore) [SSub]
+  = ([([RUpd n1; RUpd n2; RUpd n1] ++ [RSync], COk)], RS c2 (PEnded SOK)).
+Proof.
+  split; [apply c2_wf|]. split; [apply accepted_ex|]. split; [apply paths_ok_ex|].
+  vm_compute. reflexivity.
+Qed.
+
+(** POLL: the trigger after "add n3, delete a/ in t2" returns n1 (twice) and n3,
+    no longer n2 *)
+Example poll_exact_ex :
+  group_at allow1 NoACL (Some rq_poll) (RS c0 PBefore)
+           (pre ++ SSub :: [SCache (CUpdate n3); SCache (CUpdate n4)] ++ SPoll :: [])
+           (List.length pre + 1 + 2)
+  = Some ([RUpd n1; RUpd n3; RUpd n1] ++ [RSync], COk).
+Proof. vm_compute. reflexivity. Qed.
+
+(** STREAM for user u1 (allowed t1 only) over "*": the snapshot keeps n1 and
+    drops n2; of the streamed n3 (t1) and the delete in t2 only n3 arrives *)
+Example acl_stream_ex :
+  admits allow1 "u1" (Some rq_stream) /\
+  map fst (fst (run allow1 (ACLUser (Some "u1")) (Some rq_stream) (RS c0 PBefore)
+                    (pre ++ SSub :: [SCache (CUpdate n3); SCache (CUpdate n4)])))
+  = [[]; []; [RUpd n1; RUpd n1; RSync]; [RUpd n3]; []] /\
+  map fst (fst (run allow1 NoACL (Some rq_stream) (RS c0 PBefore)
+                    (pre ++ SSub :: [SCache (CUpdate n3); SCache (CUpdate n4)])))
+  = [[]; []; [RUpd n1; RUpd n2; RUpd n1; RSync]; [RUpd n3];
+     [RUpd (NT 4 (GP "t2" "" []) [] [GP "" "" [("a", []); ("c", [("k", "1")])]] false)]].
+Proof.
+  split; [|split; vm_compute; reflexivity].
+  intros r pf E Hp. inversion E; subst r. cbn in Hp. inversion Hp; subst pf. now left.
+Qed.
+
+(** a single denied target: the hypotheses of [single_target_denied_no_data] *)
+Example single_denied_ex :
+  let rq := RQ true (Some (GP "t2" "" [])) subs 0 false in
+  no_sub pre /\ accepted (cache_after c0 pre) rq (GP "t2" "" []) /\ allow1 "u1" "t2" = false.
+Proof. split; [apply pre_no_sub|]. split; [|reflexivity]. repeat split. vm_compute. discriminate. Qed.
+
+End Examples.
